@@ -76,11 +76,14 @@ func (n *normCtx) literalRange(s ast.Stmt) []ast.Stmt {
 						bad = true
 					}
 				case token.BREAK:
-					if y.Label != nil || !(inLoop || inSwitch) {
+					// (a labelled branch leaves for a statement outside the
+					// loop, which carries no label itself: it is a way out
+					// like a return)
+					if y.Label == nil && !(inLoop || inSwitch) {
 						bad = true
 					}
 				case token.CONTINUE:
-					if y.Label != nil || !inLoop {
+					if y.Label == nil && !inLoop {
 						bad = true
 					}
 				}
